@@ -425,48 +425,69 @@ def run(repo, tier):
         r.ob("R16.2", f"{fname}: polynomial.py vs floating_point_algorithms.py consumption patterns", a == b,
              f"the two copies consume coefficients differently: only in polynomial.py {sorted(a - b)}, only in floating_point_algorithms.py {sorted(b - a)}", loc("polynomial.py", repo.func("polynomial.py", fname)))
 
-    # ---- R16.3 exponent bookkeeping
+    # ---- R16.3 exponent bookkeeping: one unfolding of fast_exponent_by_squaring with the recursive call summarised by its
+    # contract (induction hypothesis), interpreted for n = 0..16 and for n = 8q + r (q >= 1 symbolic, r = 0..7)
+    from sa.absint import Interp, Closure, Unsupported as IUnsupported, PyRaise
+    from sa.linint import Lin as SLin, Paths
+
+    class XPow:
+        __absint_host__ = True
+
+        def __init__(self, e):
+            self.e = e
+
+        def __mul__(self, o):
+            if isinstance(o, XPow):
+                return XPow(self.e + o.e)
+            if isinstance(o, int) and o == 1:
+                return self
+            return NotImplemented
+
+        __rmul__ = __mul__
+
+    class PCtx:
+        __absint_host__ = True
+
+        def constant(self, v, like=None):
+            if v == 1:
+                return XPow(0)
+            raise TypeError(f"constant {v!r} in a power")
+
     for rel in ("polynomial.py", "floating_point_algorithms.py"):
         f = repo.func(rel, "fast_exponent_by_squaring")
-        xname = "x"
-        for p in enumerate_paths(f):
-            if p.exit != "return":
-                continue
-            n_val = None
-            parity = None
-            for e in p.events:
-                if e.kind == "test" and isinstance(e.node, ast.Compare):
-                    t = norm_src(e.node)
-                    if e.pol and t.startswith("n == "):
-                        n_val = int(t.split("==")[1])
-                    if t == "n % 2 == 0":
-                        parity = 0 if e.pol else 1
-            # IfExp in return: split
-            rv = p.exit_node.value
-            cases = [(rv, parity)]
-            if isinstance(rv, ast.IfExp) and norm_src(rv.test) == "n % 2 == 0":
-                cases = [(rv.body, 0), (rv.orelse, 1)]
-            for expr, par in cases:
-                env = {}
-                for e in p.events:
-                    if e.kind == "stmt" and isinstance(e.node, ast.Assign) and isinstance(e.node.targets[0], ast.Name):
-                        env[e.node.targets[0].id] = e.node.value
-                try:
-                    ex = _exponent(expr, env, xname)
-                except NotLinear as err:
-                    raise AnalysisError(f"{rel}::fast_exponent_by_squaring: `{norm_src(expr)}` not understood ({err})")
-                if n_val is not None:
-                    want = Lin({}, n_val)
-                    got = ex
+        params = [a_.arg for a_ in f.args.args]
+        with_ctx = len(params) == 3
+
+        def summary(*args):
+            xx, m = args[-2], args[-1]
+            if not isinstance(xx, XPow):
+                raise TypeError("recursive call on something that is not a power of x")
+            return XPow(xx.e * m if isinstance(xx.e, int) else m * xx.e)
+
+        def run_for(nval):
+            def run():
+                I = Interp(repo)
+                I.globals_cache[(rel, "fast_exponent_by_squaring")] = summary
+                args = ([PCtx()] if with_ctx else []) + [XPow(1), nval]
+                return I.call(Closure(f, {}, I, rel, bound_self=None), args)
+            return run
+
+        cases = [(f"n={k_}", k_, []) for k_ in range(0, 17)] + [(f"n=8q+{r_}", SLin({"q": 8}, r_), [(SLin({"q": 1}, -1), ">=")]) for r_ in range(8)]
+        for label, nval, facts in cases:
+            try:
+                outs = list(Paths.explore(run_for(nval), base_facts=facts))
+            except (IUnsupported, PyRaise, TypeError) as e:
+                raise AnalysisError(f"{rel}::fast_exponent_by_squaring is not interpretable for {label}: {getattr(e, 'what', e)}")
+            for ctx_, got in outs:
+                if isinstance(got, int) and got == 1:
+                    got = XPow(0)
+                e_ = got.e if isinstance(got, XPow) else None
+                if isinstance(nval, int):
+                    ok = e_ is not None and (e_ == nval if isinstance(e_, int) else (isinstance(e_, SLin) and e_.same(nval)))
                 else:
-                    # n = 2*h + par with h = n // 2
-                    if par is None:
-                        raise AnalysisError(f"{rel}::fast_exponent_by_squaring: parity of n unknown on path {p.describe()}")
-                    want = Lin({"h": 2}, par)
-                    got = ex
-                ok = got == want
-                r.ob("R16.3", f"{rel}::fast_exponent_by_squaring n={'%s' % n_val if n_val is not None else ('even' if par == 0 else 'odd')}", ok,
-                     f"returns x**({got}) where n = {want} (h = n // 2)", loc(rel, p.exit_node))
+                    ok = isinstance(e_, SLin) and e_.same(nval)
+                r.ob("R16.3", f"{rel}::fast_exponent_by_squaring {label}", ok,
+                     f"with the recursive call returning x**(its exponent argument), the function returns x**({e_!r}) for n = {nval!r}", loc(rel, f))
         # split recombination in fast_polynomial
         g = repo.func(rel, "fast_polynomial")
         ret = [n for n in ast.walk(g) if isinstance(n, ast.Return) and isinstance(n.value, ast.BinOp) and isinstance(n.value.op, ast.Add)]
